@@ -26,11 +26,11 @@ CHECKS = {
    note="sampled; split positions sampled per world"),
  "C06": dict(cat="exploration", ref="DESIGN.md section 3 C06",
    technique="deterministic simulation with a seam fault: server static key swapped under an unchanged OPRF seed (stolen password file served elsewhere), direct and SimHsm keys; Model A + reported-key postconditions",
-   text="A record registered at S is served by S' built through the public decoder from seed(S) and another server's static key, and by an unrelated server; the client must refuse; registration and every successful login must report exactly S's public key.",
+   text="A record registered at S is served by S' built through the public decoder from seed(S) and another server's static key, and by an unrelated server; the client must refuse; registration and every successful login must report exactly S's public key; one-sided, explicit-default and long identities; and in half of the externally-held-key worlds the key service rotates the key behind the setup afterwards (later registrations must still be told the setup's own key, logins under the rotated key must be refused).",
    note="sampled worlds; ~900 foreign-key logins per quick run"),
  "C07": dict(cat="exploration", ref="DESIGN.md section 3 C07",
    technique="deterministic simulation of an adversarial network: every routing of requests/responses/finalizations inside a bounded population, executed in seeded random topological orders with shared per-party RNGs; Model A, key agreement/distinctness, schedule-independence (two interleavings compared) and bounded liveness after faults stop",
-   text="Per world 50 server sessions x 204 client finishes x all finalization deliveries (replay from an earlier day, cross-session, cross-user, wrong password, no record, two credential ids); acceptance only along matched conversations, equal keys inside a session, pairwise distinct keys across sessions, identical per-session outputs under a second interleaving, and an honest login per user completes in four steps afterwards.",
+   text="Per world 50 server sessions x 204 client finishes x all finalization deliveries (replay from an earlier day, cross-session, cross-user, wrong password, no record, two credential ids); acceptance only along matched conversations, equal keys inside a session, pairwise distinct keys across sessions, identical per-session outputs under a second interleaving, and an honest login per user completes in four steps afterwards. Plus seeded random walks: concurrent users and sessions advance at random, a quarter of the steps deviate in one random aspect (foreign message or state, other password / credential id / identities / context / KSF / setup, crash-reload), deliveries through random codecs.",
    note="routing exhaustive inside the population (quick samples 1/4 of client finishes on P-384/P-521 groups); populations, passwords, tapes, orders seeded"),
  "C08": dict(cat="exploration", ref="DESIGN.md section 3 C08",
    technique="deterministic simulation of histories interleaving fake (no record) and real logins; structural/equality/non-repetition oracles over the recorded history, candidate-key unmasking with harness HKDF, Model A for client/server outcomes",
@@ -38,7 +38,7 @@ CHECKS = {
    note="unpredictability is tested as non-repetition / tape dependence only"),
  "C10": dict(cat="fault_enumeration", ref="DESIGN.md section 3 C10",
    technique="fault enumeration on stored/wire bytes: truncation/extension at every length, every leading-byte value and substitutions at every offset of every element/scalar field, non-reduced scalars, on the 11 native decoders x 20 suites; oracle decode-Ok implies canonical re-encoding",
-   text="Starting from valid encodings harvested from a seeded simulated run, each decoder is fed the complete families of wrong lengths and field corruptions; whatever decodes must re-encode to the input bytes and have the suite's fixed length.",
+   text="Starting from valid encodings harvested from a seeded simulated run, each decoder is fed the complete families of wrong lengths and field corruptions; whatever decodes must re-encode to the input bytes and have the suite's fixed length; the same for key-exchange public/private key fields decoded through opaque-ke's own serde impls (bincode, JSON).",
    note="families complete per harvested encoding; encodings are seeded samples; found and fixed F1/F2 (see known_findings.json)"),
  "C11": dict(cat="fault_enumeration", ref="DESIGN.md section 3 C11",
    technique="fault enumeration: an independently generated (Python big-integer) catalogue of invalid group elements/scalars planted in every element/scalar field of every message/state, decoded natively and through bincode and JSON; oracle decode returns Err",
@@ -51,11 +51,11 @@ CHECKS = {
 
  "C12": dict(cat="exploration", ref="DESIGN.md section 3 C12",
    technique="deterministic simulation with fault injection on every byte seam: seeded random and structure-preserving mutated encodings into 11 decoders x 3 codecs, decoded results pushed into the consuming protocol step, foreign well-formed items routed into every step, catalogue values planted in every field, oversize parameters; catch_unwind no-panic monitor + refusal oracle",
-   text="No library call may panic or hang on random bytes, mutated valid encodings (flip, rewrite, truncate, extend, delete, splice, field constants/swaps), planted invalid or extreme-valid group values, items of the wrong kind/session/suite delivered to any step, or parameter lengths 0..131072; lengths above 65535 must be refused by the call that takes them (identities, context) or by the finish step (password), never wrapped or truncated. The no-panic monitor also runs over samples of all other checks' worlds.",
+   text="No library call may panic or hang on random bytes, mutated valid encodings (flip, rewrite, truncate, extend, delete, splice, field constants/swaps), planted invalid or extreme-valid group values, items of the wrong kind/session/suite delivered to any step, or parameter lengths 0..131072; lengths above 65535 must be refused by the call that takes them (identities, context) or by the finish step (password), never wrapped or truncated. The stand-alone key-pair API (PublicKey / PrivateKey / KeyPair decoders, direct and external key types) gets wrong-length, random, mutated and catalogue inputs. The no-panic monitor also runs over samples of all other checks' worlds.",
    note="sampled; panics inside the harness are harness errors (exit 2); abusive RNGs and allocation failure not injected"),
  "C13": dict(cat="fault_enumeration", ref="DESIGN.md section 3 C13",
    technique="crash-point enumeration in a deterministic simulation: every assignment of {none, native, bincode, JSON} reloads to the five persistence points (1024 schedules), setup reload before the k-th server op, chained permanent reloads; label-derived tapes; oracle = event log equal to the uninterrupted run",
-   text="Each party's state is saved and restored through every codec at every step boundary (incl. an unknown-user login that depends on the stored fake key, direct and externally held server keys); all later messages, results and keys must equal the uninterrupted run byte for byte.",
+   text="Each party's state is saved and restored through every codec at every step boundary (incl. an unknown-user login that depends on the stored fake key, direct and externally held server keys); all later messages, results and keys must equal the uninterrupted run byte for byte; the same oracle is applied to seeded random-walk workloads with random crash/reload points.",
    note="all 1024 schedules on 4 suites (64 sampled on the other 16) in quick, all on all 20 in thorough; base worlds seeded"),
  "C15": dict(cat="fault_enumeration", ref="DESIGN.md section 3 C15",
    technique="deterministic simulation with the Ksf trait as seam: SimKsf call log (count, instance, input), KSF failing at call n, KSF instance pairs at registration/login decided by Model A, same-tape registrations under two instances; real Identity and Argon2 run too",
@@ -63,7 +63,7 @@ CHECKS = {
    note="fault index enumerated over n in {1,2} per finish step; pairs enumerated; worlds seeded"),
  "C17": dict(cat="exploration", ref="DESIGN.md section 3 C17",
    technique="deterministic simulation over the RNG seam: recorded tapes replayed equal / independent / as prefixes at every draw boundary, single-draw replacement, and a generator whose try_fill_bytes errors; values compared by role",
-   text="Equal tapes give identical logs; on independent tapes every value meant to be random differs and none coincide within a run (incl. a second setup created with the same static key); for every randomised op and draw boundary k the reproduced values grow monotonically from none (k=0) to all (k=m); the hidden fake masking key is shown to be drawn by single-draw replacement; no op may succeed with different output when the generator reports errors.",
+   text="Equal tapes give identical logs; on independent tapes every value meant to be random differs and none coincide within a run (incl. a second setup created with the same static key); for every randomised op and draw boundary k the reproduced values grow monotonically from none (k=0) to all (k=m); the hidden fake masking key is shown to be drawn by single-draw replacement; no op may succeed with different output when the generator reports errors; every pair of values of one call that are meant to be independently random is moved separately by some single perturbed draw.",
    note="tests tape-dependence and non-repetition, not unpredictability; sampled worlds"),
  "C18": dict(cat="fault_enumeration", ref="DESIGN.md section 3 C18",
    technique="deterministic simulation with the SecretKey trait as seam: SimHsm (raw-scalar and opaque-handle serialization) vs direct key on equal tapes compared event by event, seam call log, and the seam failing at the n-th fallible call for every op and every n",
@@ -76,7 +76,7 @@ CHECKS = {
    note="Model B trusts curve crates (arithmetic, NIST hash-to-curve), sha2, argon2; Nseed := Nsk of the KE group; B must reproduce the 9 RFC vectors first (else exit 2)"),
  "C14": dict(cat="exploration", ref="DESIGN.md section 3 C14",
    technique="deterministic simulation comparing related runs: pairs of independent blinding tapes, one input varied at a time (credential id twins, seed, password), evaluations repeated under swapped static keys / without record / through reloads; relational oracle over all pairs + Model B's blind-free formula",
-   text="Equal (password, seed, credential id, KSF) must give equal masking keys on independent blinds and any difference must give different ones; equal (seed, credential id, request) must give the same evaluation element whatever the static key, record or reload, and any difference a different one; blinded requests never repeat; the masking key equals the specification's value computed without any blind.",
+   text="Equal (password, seed, credential id, KSF) must give equal masking keys on independent blinds and any difference must give different ones; equal (seed, credential id, request) must give the same evaluation element whatever the static key, record or reload, and any difference a different one; blinded requests never repeat; the masking key equals the specification's value computed without any blind; seeds are identified by the setup that drew them (independently created servers must be unrelated) and every login request is also sent down the registration path.",
    note="'unrelated' is tested as 'not equal'; sampled worlds, all pairs inside a world"),
 }
 
